@@ -430,6 +430,14 @@ func specials(progs []clientProg) string {
 	return "{" + strings.Join(l, ",") + "}"
 }
 
+// c17Budget is the wall-clock budget of one scenario (never an oracle: running out of it only caps the exploration).
+func c17Budget(thorough bool) time.Duration {
+	if thorough {
+		return 60 * time.Second
+	}
+	return 120 * time.Second
+}
+
 func checkC17(w *core.W) {
 	runtime.GOMAXPROCS(1)
 	c17Init()
@@ -477,8 +485,11 @@ func checkC17(w *core.W) {
 		}
 		w.Case(func() string { return "engine|" + specials(sc) + " ## clients " + scName }, func() {
 			bound := scBound
+			// internal budget per scenario (all bounds together): exploration that runs out of it is reported as
+			// capped at the bound it was working on; lower bounds were completed
+			deadline := time.Now().Add(c17Budget(w.Thorough))
 			for b := 0; b <= bound; b++ {
-				st := &Stats{Outcomes: map[string]int64{}, States: map[string]bool{}}
+				st := &Stats{Outcomes: map[string]int64{}, States: map[string]bool{}, Deadline: deadline}
 				reported := map[string]bool{}
 				t0 := time.Now()
 				Explore(func(prefix []int) *vsched.Exec {
@@ -505,17 +516,20 @@ func checkC17(w *core.W) {
 				w.Count("executions", st.Execs)
 				w.Count("scheduling_points", st.Points)
 				w.AddStates(len(st.States))
+				if st.Capped && b < bound {
+					w.Cap(fmt.Sprintf("scenario %s: budget (%d executions / %s) exhausted at preemption bound %d of %d", scName, maxExecs, c17Budget(w.Thorough), b, bound))
+				}
 				if b == bound {
 					w.Note("outcomes", fmt.Sprintf("%s: %d distinct outcomes", scName, len(st.Outcomes)))
 					if st.Capped {
-						w.Cap(fmt.Sprintf("scenario %s: execution cap %d hit at preemption bound %d", scName, maxExecs, b))
+						w.Cap(fmt.Sprintf("scenario %s: budget (%d executions / %s) exhausted at preemption bound %d", scName, maxExecs, c17Budget(w.Thorough), b))
 					}
 					if w.Shard == 0 && si < 32 {
 						w.Sample(map[string]any{"scenario": scName, "preemption_bound": b, "executions": st.Execs, "distinct_outcomes": len(st.Outcomes), "wall_ms": time.Since(t0).Milliseconds()})
 					}
 				}
-				if len(reported) > 0 {
-					break // the smallest bound that shows a violation gives the simplest schedule
+				if len(reported) > 0 || st.Capped {
+					break // the smallest bound that shows a violation gives the simplest schedule; a spent budget ends the scenario
 				}
 			}
 		})
